@@ -19,11 +19,26 @@ def natList (j : Json) (k : String) : Except String (List Nat) := do
   let arr ← Driver.getArr j k
   arr.toList.mapM fun x => (fromJson? x : Except String Nat)
 
+/-- The adjacency order sent with `its.extractFree` (`adj`), as a function; without the field, the order
+the edge list induces (`LGraph.neighbors`). -/
+def adjOfJson (j : Json) (I : LGraph) : Except String (Nat → List Nat) :=
+  match Driver.getArr j "adj" with
+  | .error _ => pure I.neighbors
+  | .ok arr => do
+    let tbl ← arr.toList.mapM fun x => do
+      let a ← (fromJson? x : Except String (Array Json))
+      if a.size ≠ 2 then throw "adj record"
+      pure ((← (fromJson? a[0]! : Except String Nat)), (← (fromJson? a[1]! : Except String (List Nat))))
+    pure fun v => ((tbl.find? (·.1 = v)).map (·.2)).getD []
+
 /-- Commands (graphs are returned in model order; the harness canonicalises both sides):
 * `its.construct {G, H, ignore_arom?, balance?, store?}` → `{graph}` | `{error}`
 * `its.decompose {its}` → `{G, H}` | `{error}`
 * `its.rc {its, element_key?, bond_key?, standard_key?, disconnected?, keep_mtg?}` → graph
 * `its.extractK {its, k}` → graph;  `its.expand {its, seeds, k}` → node list
+* `its.extractFree {its, adj?}` → graph with an extra field `radius` (`extract_k(its, -1)` and the radius it
+  picked); `adj = [[node, [neighbours in NetworkX adjacency order]], …]`, default: the order of the edge list
+* `its.unequalOrderEdges {its}` → `{nodes: [sorted]}` | `{error}` (`find_unequal_order_edges`)
 * `its.rsmiGraphs {its}` → `{keep: [atom maps, sorted], reactant: graph, product: graph}` | `{error}`
   (the `preserve_atom_maps` list and the two graphs `its_to_rsmi` hands to `GraphToMol`)
 * `its.smiGraph {graph, keep}` → graph | `{error}` (the graph step of `graph_to_smi`)
@@ -49,6 +64,14 @@ def handle : Driver.Handler := fun cmd j =>
   | "its.extractK" => some do
     let I ← Driver.getGraph j "its"
     pure (Driver.graphToJson (extractK I (← Driver.getNat j "k")))
+  | "its.extractFree" => some do
+    let I ← Driver.getGraph j "its"
+    let adj ← adjOfJson j I
+    pure ((Driver.graphToJson (extractFreeAdj adj I)).setObjVal! "radius" (toJson (freeRadiusAdj adj I)))
+  | "its.unequalOrderEdges" => some do
+    let I ← Driver.getGraph j "its"
+    if unequalDefined I then pure (Json.mkObj [("nodes", toJson ((unequalOrderEdges I).toArray.qsort (· < ·)))])
+    else pure (Json.mkObj [("error", "IndexError")])
   | "its.expand" => some do
     let I ← Driver.getGraph j "its"
     let xs := expand I (← natList j "seeds") (← Driver.getNat j "k")
